@@ -43,6 +43,9 @@ NAMES = ["a", "b", "c", "d", "e"]
 _reported = {}
 _SE = [0]           # number of Series built so far (chooses the index style of the next one)
 _DFC = [0]          # number of integer-labelled frames built so far
+_A2 = [0]           # number of 2-D arrays built so far
+_OBJ = [False]      # whether the detector under test takes object-dtype arrays of numbers (set per detector in part_b)
+OBJECT_OK = ("ADWIN", "CUSUM", "PageHinkley", "KdqTreeStreaming", "KdqTreeBatch")
 
 
 def report(ctx, signature=None, **kw):
@@ -87,6 +90,9 @@ class Inp:
         if k == "ne":
             return m.tolist()
         if k == "a2":
+            _A2[0] += 1
+            if _OBJ[0] and _A2[0] % 4 == 0:
+                return m.astype(object)      # numbers in an object-dtype array (a row cut from a frame that also has a string column)
             return m
         if k == "df":
             cols = list(self.names)
@@ -572,6 +578,11 @@ def digest(v):
         if isinstance(v, (pd.DataFrame, pd.Series)):
             v = v.values
         if isinstance(v, np.ndarray):
+            if v.dtype == object:            # numbers kept in an object array: fingerprint the values, not the pointers
+                try:
+                    v = v.astype(float)
+                except Exception:
+                    return "%s#obj:%s" % (v.shape, repr(v.tolist())[:200])
             return "%s#%08x" % (v.shape, zlib.crc32(np.ascontiguousarray(v).tobytes()))
         return type(v).__name__
     except Exception as ex:
@@ -751,6 +762,7 @@ def part_b(ctx, drv, only=None):
     drifts = {}
     for spec in S + Y:
         name, mode, L = spec["name"], spec["mode"], spec["L"]
+        _OBJ[0] = spec["name"].split("(")[0].split("[")[0] in OBJECT_OK
         nhist, npairs, per_kind = spec["budget"][0 if ctx.quick else 1]
         for h in range(nhist):
             # candidate histories are drawn until the canonical run has a drift (pending-reset positions are what matters)
